@@ -724,3 +724,16 @@ def fx_flushwhole(fx):
     c = _ctx()
     n = scratch.partial_flush_then_clear(c, fx, ["src/lib.rs"], only=lambda fid: "flushfx::" in fid)
     return n == 2 and _fires(c, "bad_flush") and not _fires(c, "ok_flush_all") and not _fires(c, "ok_flush_drain")
+
+
+def fx_cachedview(fx):
+    from rules import cachedview
+    c = _ctx()
+    nb = cachedview.run(c, fx, "src/lib.rs", "cviewfx::BadBuf", "store", "view", only=lambda fid: "cviewfx::BadBuf" in fid)
+    no = cachedview.run(c, fx, "src/lib.rs", "cviewfx::OkBuf", "store", "view", only=lambda fid: "cviewfx::OkBuf" in fid)
+    c2 = _ctx()
+    n2 = cachedview.run(c2, fx, "src/lib.rs", "cviewfx2::OkBuf2", "store", "view", only=lambda fid: "cviewfx2::" in fid)
+    if n2 < 3 or c2.violations or _fires(c, "BadBuf::grow"):
+        return False
+    return nb >= 5 and no >= 3 and _fires(c, "BadBuf::bad_append") and _fires(c, "BadBuf::bad_reserve") and \
+        _fires(c, "BadBuf::bad_via_helper") and not _fires(c, "BadBuf::set") and not _fires(c, "cviewfx::OkBuf")
